@@ -27,6 +27,7 @@ LADDERS = {
     "RC3": "R{R=1}(R{R=10}C{C=1e-5})(R{R=25}C{C=1e-3})(R{R=15}C{C=5e-2})",
 }
 GRIDS = {"g43": (4, -2, 43), "g31": (5, 0, 31), "g61": (3, -3, 61), "g43hi": (6, 0, 43)}
+WARPED = {"g43warp": (4, -2, 43, 1.7)}   # same end points and point count as g43, non-uniform spacing (window-sequence only)
 NP_ORDER = [(3, 2), (5, 2), (5, 3), (7, 4)]
 
 
@@ -49,8 +50,13 @@ def setup():
 
 def make_data(case: dict, st):
     np = st["np"]
-    hi, lo, n = GRIDS[case.get("grid", "g43")]
-    f = np.logspace(hi, lo, n)
+    g = case.get("grid", "g43")
+    if g in WARPED:
+        hi, lo, n, warp = WARPED[g]
+        f = 10.0 ** (hi - (hi - lo) * (np.arange(n) / (n - 1)) ** warp)
+    else:
+        hi, lo, n = GRIDS[g]
+        f = np.logspace(hi, lo, n)
     cdc = CONSTANT_PHASE.get(case["spec"]) or LADDERS[case["spec"]]
     Z = st["parse_cdc"](cdc).get_impedances(f) * case.get("zscale", 1.0)
     return f, Z
@@ -277,7 +283,7 @@ def cases(thorough: bool) -> List[dict]:
     # (5b) the same named window on two grids, one call after the other (fresh process per sequence)
     for sp in (["C", "Q0.8"] if not thorough else ["R", "C", "Q0.8", "W"]):
         for win in ("boxcar", "hann"):
-            for grids in (("g43", "g43hi"), ("g43hi", "g43")):
+            for grids in (("g43", "g43hi"), ("g43hi", "g43"), ("g43", "g43warp"), ("g43warp", "g43")):
                 out.append({"part": "window-sequence", "spec": sp, "window": win, "center": 1.5, "width": 3.0, "grids": list(grids), "smoothing": "none", "interpolation": "pchip"})
     # (6) filters on exactly constant / linear phase
     for sm, npo, shape in itertools.product(SMOOTHERS, NP_ORDER + [(9, 4), (7, 2)], ("constant", "linear")):
